@@ -161,6 +161,11 @@ int ftruncate(int fd, off_t len)
 	if (fd < 0 || fd != tracked)
 		return rtrunc(fd, len);
 	seqno++;
+	if (plan_k == seqno && planerr()) {	/* the file keeps its old length: a longer old tail stays behind the new text */
+		logrec("ftruncate", fd, len, -1, planerr());
+		errno = planerr();
+		return -1;
+	}
 	r = rtrunc(fd, len);
 	logrec("ftruncate", fd, len, r, r < 0 ? errno : 0);
 	return r;
